@@ -37,7 +37,7 @@ Proof.
     + destruct (span_not c s) as [a' b'] eqn:E. injection H as <- <-.
       destruct (IH a' b' eq_refl) as (H1 & H2 & H3).
       split; [cbn [app]; f_equal; exact H1|]. split; [|exact H3].
-      intros [Hx|Hin]; [symmetry in Hx; contradiction|contradiction].
+      intros [Hx|Hin]; [exact (Hne Hx)|exact (H2 Hin)].
 Qed.
 
 Lemma span_not_cons : forall c a r, ~ In c a -> span_not c (a ++ c :: r) = (a, c :: r).
@@ -108,4 +108,620 @@ Proof.
   intros run h t tail H. apply link_match_spec in H. destruct H as (rest & -> & H).
   apply link_match_spec. exists (rest ++ tail). split; [|exact H].
   rewrite <- !app_assoc. reflexivity.
+Qed.
+
+(* ================================================================== *)
+(* 2. the rendering of a resolved hyperlink                             *)
+(* ================================================================== *)
+(* a resolved hyperlink is one run  <a href="LINK">BODY</a>  (MarkerFacts.
+   link_render, emit_link_resolved, link_is_one_run) *)
+Lemma link_render_consts : forall html link body,
+  render html (link_toks link body)
+  = s_a_open ++ link ++ s_quote_gt ++ render html body ++ s_a_close ++ [].
+Proof. intros html link body. rewrite link_render, app_nil_r. reflexivity. Qed.
+
+(* general form: any token list, any html flag *)
+Theorem link_match_rendered_link_gen : forall html link body,
+  link <> [] -> ~ In 34 link ->
+  render html body <> [] -> ~ In 60 (render html body) ->
+  link_match (render html (link_toks link body)) = Some (link, render html body).
+Proof.
+  intros html link body Hl Nl Hb Nb. apply link_match_spec.
+  exists []. split; [apply link_render_consts|]. repeat split; assumption.
+Qed.
+
+(* tokens that are characters only *)
+Definition chr_tok (t : tok) : bool :=
+  match t with TTxt _ | TRaw _ => true | _ => false end.
+
+Theorem link_match_rendered_link : forall link body,
+  link <> [] -> ~ In 34 link ->
+  forallb chr_tok body = true ->
+  render false body <> [] -> ~ In 60 (render false body) ->
+  link_match (render false (link_toks link body)) = Some (link, render false body).
+Proof.
+  intros link body Hl Nl _ Hb Nb. apply link_match_rendered_link_gen; assumption.
+Qed.
+
+(* the hypothesis on token kinds is implied by the absence of `<` *)
+Lemma no_angle_chr_toks : forall html body,
+  ~ In 60 (render html body) -> forallb chr_tok body = true.
+Proof.
+  intros html. induction body as [|t body IH]; intros Hn; [reflexivity|].
+  unfold render in Hn. cbn [map concat] in Hn.
+  cbn [forallb]. apply andb_true_intro. split.
+  - destruct t as [c|c|s|s]; try reflexivity; exfalso; apply Hn; cbn [render_tok app];
+      left; reflexivity.
+  - apply IH. intros Hin. apply Hn. apply in_or_app. right. exact Hin.
+Qed.
+
+(* without html the rendering of character tokens is the characters *)
+Definition tok_chr (t : tok) : N :=
+  match t with TTxt c | TRaw c => c | _ => 0 end.
+Lemma render_chr_toks : forall body, forallb chr_tok body = true ->
+  render false body = map tok_chr body.
+Proof.
+  induction body as [|t body IH]; intros H; [reflexivity|].
+  cbn [forallb] in H. apply andb_prop in H. destruct H as [Ht Hb].
+  unfold render in *. cbn [map concat]. rewrite (IH Hb).
+  destruct t as [c|c|s|s]; try discriminate Ht; reflexivity.
+Qed.
+
+(* text with an angle bracket is not yielded: whatever is yielded for the
+   link run, it is not the pair (link, body text) *)
+Theorem link_match_none_bracket : forall html link body,
+  In 60 (render html body) ->
+  link_match (render html (link_toks link body)) <> Some (link, render html body).
+Proof.
+  intros html link body Hin H. apply link_match_groups in H.
+  destruct H as (_ & _ & _ & Hn). exact (Hn Hin).
+Qed.
+
+(* the same for a target with a quote *)
+Theorem link_match_none_quote : forall html link body,
+  In 34 link ->
+  link_match (render html (link_toks link body)) <> Some (link, render html body).
+Proof.
+  intros html link body Hin H. apply link_match_groups in H.
+  destruct H as (_ & Hn & _). exact (Hn Hin).
+Qed.
+
+(* exact outcome with a bracket in the text: cut the text at its first `<` *)
+Lemma in_split_first : forall (c : N) s, In c s ->
+  exists a b, s = a ++ c :: b /\ ~ In c a.
+Proof.
+  intros c. induction s as [|x s IH]; intros Hin; [destruct Hin|].
+  destruct (N.eq_dec x c) as [->|Hne].
+  - exists [], s. split; [reflexivity|intros []].
+  - destruct Hin as [Hx|Hin]; [contradiction|].
+    destruct (IH Hin) as (a & b & -> & Hn). exists (x :: a), b.
+    split; [reflexivity|]. intros [Hx|Hi]; [exact (Hne Hx)|exact (Hn Hi)].
+Qed.
+
+Definition s_a_close_tl : str := [47; 97; 62].     (* /a> *)
+
+Theorem link_match_bracket_exact : forall html link body t1 t2,
+  link <> [] -> ~ In 34 link ->
+  render html body = t1 ++ 60 :: t2 -> ~ In 60 t1 ->
+  link_match (render html (link_toks link body))
+  = match t1, strip_prefix s_a_close_tl (t2 ++ s_a_close) with
+    | _ :: _, Some _ => Some (link, t1)
+    | _, _ => None
+    end.
+Proof.
+  intros html link body t1 t2 Hl Nl Hb Nt.
+  rewrite link_render_consts, Hb. unfold link_match. rewrite strip_prefix_app.
+  change (s_quote_gt ++ (t1 ++ 60 :: t2) ++ s_a_close ++ [])
+    with (34 :: 62 :: (t1 ++ 60 :: t2) ++ s_a_close ++ []).
+  rewrite (span_not_cons 34 link _ Nl).
+  destruct link as [|l0 link]; [contradiction Hl; reflexivity|].
+  change (34 :: 62 :: (t1 ++ 60 :: t2) ++ s_a_close ++ [])
+    with (s_quote_gt ++ (t1 ++ 60 :: t2) ++ s_a_close ++ []).
+  rewrite strip_prefix_app, app_nil_r, <- app_assoc. cbn [app].
+  rewrite (span_not_cons 60 t1 _ Nt).
+  destruct t1 as [|c t1]; [reflexivity|].
+  unfold s_a_close at 1. cbn [strip_prefix]. rewrite N.eqb_refl.
+  reflexivity.
+Qed.
+
+(* hence: None as soon as the text starts with `<` or the first `<` does not
+   start a literal </a> *)
+Corollary link_match_bracket_none : forall html link body t1 t2,
+  link <> [] -> ~ In 34 link ->
+  render html body = t1 ++ 60 :: t2 -> ~ In 60 t1 ->
+  t1 = [] \/ strip_prefix s_a_close_tl (t2 ++ s_a_close) = None ->
+  link_match (render html (link_toks link body)) = None.
+Proof.
+  intros html link body t1 t2 Hl Nl Hb Nt Hc.
+  rewrite (link_match_bracket_exact html link body t1 t2 Hl Nl Hb Nt).
+  destruct Hc as [Hc | Hc]; rewrite Hc; [reflexivity|]. destruct t1; reflexivity.
+Qed.
+
+(* the quirk: document text that itself spells </a> (html off) cuts the text *)
+Example link_match_bracket_quirk :
+  let body := map TTxt [120; 60; 47; 97; 62; 121] in          (* x</a>y *)
+  link_match (render false (link_toks [117] body)) = Some ([117], [120]).
+Proof. vm_compute. reflexivity. Qed.
+
+(* ================================================================== *)
+(* 3. runs that are not links                                           *)
+(* ================================================================== *)
+Theorem link_match_plain_text : forall run,
+  strip_prefix s_a_open run = None -> link_match run = None.
+Proof. intros run H. unfold link_match. rewrite H. reflexivity. Qed.
+
+Lemma link_match_first_char : forall c r, c <> 60 -> link_match (c :: r) = None.
+Proof.
+  intros c r H. apply link_match_plain_text. unfold s_a_open. cbn [strip_prefix].
+  destruct (N.eqb_spec 60 c) as [E|_]; [symmetry in E; contradiction|reflexivity].
+Qed.
+
+Lemma link_match_nil : link_match [] = None.
+Proof. reflexivity. Qed.
+
+Theorem link_match_no_angle : forall run, ~ In 60 run -> link_match run = None.
+Proof.
+  intros [|c r] H; [reflexivity|]. apply link_match_first_char.
+  intros ->. apply H. left. reflexivity.
+Qed.
+
+(* escaped document text (html on) is never a link *)
+Corollary link_match_escaped_text : forall s,
+  link_match (render true (map TTxt s)) = None.
+Proof. intros s. apply link_match_no_angle. apply (escape_no_angle s). Qed.
+
+(* ================================================================== *)
+(* 4. heading_match                                                     *)
+(* ================================================================== *)
+Theorem heading_match_spec : forall s,
+  heading_match s = true <->
+  exists d rest, s = s_Heading ++ d :: rest /\ is_unicode_digit d = true.
+Proof.
+  intros s. unfold heading_match. split.
+  - destruct (strip_prefix s_Heading s) as [[|d rest]|] eqn:E; try discriminate.
+    intros H. apply strip_prefix_spec in E. eauto.
+  - intros (d & rest & -> & H). rewrite strip_prefix_app. exact H.
+Qed.
+
+Lemma heading_match_false_prefix : forall s,
+  strip_prefix s_Heading s = None -> heading_match s = false.
+Proof. intros s H. unfold heading_match. rewrite H. reflexivity. Qed.
+
+(* what follows the digit is irrelevant (re.match, no end anchor) *)
+Corollary heading_match_tail : forall s tail,
+  heading_match s = true -> heading_match (s ++ tail) = true.
+Proof.
+  intros s tail H. apply heading_match_spec in H. destruct H as (d & rest & -> & H).
+  apply heading_match_spec. exists d, (rest ++ tail). split; [|exact H].
+  rewrite <- app_assoc. reflexivity.
+Qed.
+
+Theorem is_unicode_digit_spec : forall c,
+  is_unicode_digit c = true <-> exists lo hi, In (lo, hi) nd_ranges /\ lo <= c <= hi.
+Proof.
+  intros c. unfold is_unicode_digit. rewrite existsb_exists. split.
+  - intros ([lo hi] & Hin & H). apply andb_prop in H. destruct H as [H1 H2].
+    cbn [fst snd] in *. apply N.leb_le in H1, H2. eauto.
+  - intros (lo & hi & Hin & H1 & H2). exists (lo, hi). split; [exact Hin|].
+    cbn [fst snd]. apply andb_true_intro. split; apply N.leb_le; assumption.
+Qed.
+
+Definition ascii_digit (c : N) : bool := (48 <=? c) && (c <=? 57).
+
+Lemma below_in_seq : forall n c, c < N.of_nat n -> In c (map N.of_nat (seq 0 n)).
+Proof.
+  intros n c H. rewrite <- (N2Nat.id c). apply in_map. apply in_seq. lia.
+Qed.
+
+Theorem heading_match_ascii : forall c, c < 128 ->
+  is_unicode_digit c = ascii_digit c.
+Proof.
+  intros c H.
+  assert (A : forallb (fun c => Bool.eqb (is_unicode_digit c) (ascii_digit c))
+                      (map N.of_nat (seq 0 128)) = true) by (vm_compute; reflexivity).
+  rewrite forallb_forall in A. apply Bool.eqb_prop. apply A.
+  apply (below_in_seq 128). exact H.
+Qed.
+
+Corollary is_unicode_digit_ascii_true : forall c, 48 <= c <= 57 -> is_unicode_digit c = true.
+Proof.
+  intros c [H1 H2]. rewrite heading_match_ascii by lia. unfold ascii_digit.
+  apply andb_true_intro. split; apply N.leb_le; assumption.
+Qed.
+
+Corollary is_unicode_digit_ascii_false : forall c, c < 128 -> ~ (48 <= c <= 57) ->
+  is_unicode_digit c = false.
+Proof.
+  intros c H Hn. rewrite heading_match_ascii by exact H. unfold ascii_digit.
+  destruct (N.leb_spec 48 c) as [H1|H1]; [|reflexivity].
+  destruct (N.leb_spec c 57) as [H2|H2]; [|reflexivity].
+  exfalso. apply Hn. split; assumption.
+Qed.
+
+(* "Heading" followed by an ASCII digit always matches; by an other ASCII
+   character never *)
+Corollary heading_match_ascii_style : forall d rest, d < 128 ->
+  heading_match (s_Heading ++ d :: rest) = ascii_digit d.
+Proof.
+  intros d rest H. unfold heading_match. rewrite strip_prefix_app.
+  apply heading_match_ascii. exact H.
+Qed.
+
+(* ================================================================== *)
+(* 7. examples                                                          *)
+(* ================================================================== *)
+(* <a href="http://x">a b</a>tail *)
+Example ex_link_tail :
+  link_match ([60;97;32;104;114;101;102;61;34] ++ [104;116;116;112;58;47;47;120] ++ [34;62]
+              ++ [97;32;98] ++ [60;47;97;62] ++ [116;97;105;108])
+  = Some ([104;116;116;112;58;47;47;120], [97;32;98]).
+Proof. vm_compute. reflexivity. Qed.
+(* <a href="">x</a> : empty href *)
+Example ex_link_empty_href :
+  link_match ([60;97;32;104;114;101;102;61;34] ++ [34;62] ++ [120] ++ [60;47;97;62]) = None.
+Proof. vm_compute. reflexivity. Qed.
+(* <a href="u">a<b</a> *)
+Example ex_link_bracket :
+  link_match ([60;97;32;104;114;101;102;61;34] ++ [117] ++ [34;62] ++ [97;60;98] ++ [60;47;97;62])
+  = None.
+Proof. vm_compute. reflexivity. Qed.
+(* <a href="u"></a> : empty text *)
+Example ex_link_empty_text :
+  link_match ([60;97;32;104;114;101;102;61;34] ++ [117] ++ [34;62] ++ [60;47;97;62]) = None.
+Proof. vm_compute. reflexivity. Qed.
+
+Example ex_heading1 : heading_match [72;101;97;100;105;110;103;49] = true.      (* Heading1 *)
+Proof. vm_compute. reflexivity. Qed.
+Example ex_heading : heading_match [72;101;97;100;105;110;103] = false.          (* Heading *)
+Proof. vm_compute. reflexivity. Qed.
+Example ex_heading_lower : heading_match [104;101;97;100;105;110;103;49] = false. (* heading1 *)
+Proof. vm_compute. reflexivity. Qed.
+Example ex_heading_arabic : heading_match [72;101;97;100;105;110;103;1635] = true. (* Heading + U+0663 *)
+Proof. vm_compute. reflexivity. Qed.
+Example ex_heading_title : heading_match [84;105;116;108;101] = false.            (* Title *)
+Proof. vm_compute. reflexivity. Qed.
+Example ex_heading_10 : heading_match [72;101;97;100;105;110;103;49;48] = true.   (* Heading10 *)
+Proof. vm_compute. reflexivity. Qed.
+
+(* ================================================================== *)
+(* 5. get_links                                                         *)
+(* ================================================================== *)
+Lemma filter_map_app {A B} (f : A -> option B) : forall l1 l2,
+  filter_map f (l1 ++ l2) = filter_map f l1 ++ filter_map f l2.
+Proof.
+  induction l1 as [|x l1 IH]; intros l2; cbn [app filter_map]; [reflexivity|].
+  destruct (f x) as [y|]; rewrite IH; reflexivity.
+Qed.
+
+Lemma filter_map_In {A B} (f : A -> option B) : forall l y,
+  In y (filter_map f l) <-> exists x, In x l /\ f x = Some y.
+Proof.
+  induction l as [|x l IH]; intros y; cbn [filter_map].
+  - split; [intros []|intros (x & [] & _)].
+  - destruct (f x) as [y'|] eqn:E.
+    + split.
+      * intros [<-|Hin]; [exists x; split; [left; reflexivity|exact E]|].
+        apply IH in Hin. destruct Hin as (x' & Hin & E'). exists x'. split; [right; exact Hin|exact E'].
+      * intros (x' & [<-|Hin] & E').
+        -- rewrite E in E'. injection E' as <-. left. reflexivity.
+        -- right. apply IH. eauto.
+    + split.
+      * intros Hin. apply IH in Hin. destruct Hin as (x' & Hin & E').
+        exists x'. split; [right; exact Hin|exact E'].
+      * intros (x' & [<-|Hin] & E'); [rewrite E in E'; discriminate E'|].
+        apply IH. eauto.
+Qed.
+
+(* order: filter_map is the concatenation of the per-element outcomes *)
+Lemma filter_map_flat_map {A B} (f : A -> option B) : forall l,
+  filter_map f l = flat_map (fun x => match f x with Some y => [y] | None => [] end) l.
+Proof.
+  induction l as [|x l IH]; cbn [filter_map flat_map]; [reflexivity|].
+  destruct (f x); rewrite IH; reflexivity.
+Qed.
+
+Lemma filter_map_none {A B} (f : A -> option B) : forall l,
+  (forall x, In x l -> f x = None) -> filter_map f l = [].
+Proof.
+  induction l as [|x l IH]; intros H; cbn [filter_map]; [reflexivity|].
+  rewrite (H x (or_introl eq_refl)). apply IH. intros x' Hin. apply H. right. exact Hin.
+Qed.
+
+(* the run strings of the document: the leaves at depth 5 of document_runs
+   with the default options, in iteration order *)
+Definition run_leaves (a : archive) : res (list str) :=
+  runs <- document_runs a default_opts ;;
+  items <- iter_at_depth runs 5%nat ;;
+  mapM leaf_str items.
+
+Lemma get_links_unfold : forall a,
+  get_links a = (ss <- run_leaves a ;; Ok (filter_map link_match ss)).
+Proof.
+  intros a. unfold get_links, run_leaves.
+  destruct (document_runs a default_opts) as [runs|e]; cbn [bind]; [|reflexivity].
+  destruct (iter_at_depth runs 5%nat) as [items|e]; cbn [bind]; reflexivity.
+Qed.
+
+Theorem get_links_complete : forall a l, get_links a = Ok l ->
+  exists ss, run_leaves a = Ok ss /\ l = filter_map link_match ss.
+Proof.
+  intros a l H. rewrite get_links_unfold in H. apply bind_inv in H.
+  destruct H as (ss & E & H). injection H as <-. eauto.
+Qed.
+
+Theorem get_links_iff : forall a l, get_links a = Ok l <->
+  exists ss, run_leaves a = Ok ss /\ l = filter_map link_match ss.
+Proof.
+  intros a l. split; [apply get_links_complete|].
+  intros (ss & E & ->). rewrite get_links_unfold, E. reflexivity.
+Qed.
+
+Theorem get_links_err : forall a e, get_links a = Err e <-> run_leaves a = Err e.
+Proof.
+  intros a e. rewrite get_links_unfold. destruct (run_leaves a) as [ss|e']; cbn [bind].
+  - split; discriminate.
+  - split; intros [= ->]; reflexivity.
+Qed.
+
+Lemma mapM_leaf_str : forall items ss, mapM leaf_str items = Ok ss <-> items = map RA ss.
+Proof.
+  induction items as [|t items IH]; intros ss; cbn [mapM].
+  - split.
+    + intros [= <-]. reflexivity.
+    + destruct ss; [reflexivity|discriminate].
+  - destruct t as [l|s]; cbn [leaf_str bind].
+    + split; [discriminate|]. destruct ss; discriminate.
+    + destruct (mapM leaf_str items) as [ss'|e] eqn:E; cbn [bind].
+      * split.
+        -- intros [= <-]. cbn [map]. f_equal. apply IH. reflexivity.
+        -- destruct ss as [|s0 ss]; [discriminate|]. cbn [map]. intros [= -> H].
+           apply IH in H. injection H as ->. reflexivity.
+      * split; [discriminate|]. destruct ss as [|s0 ss]; [discriminate|]. cbn [map].
+        intros [= -> H]. apply IH in H. discriminate H.
+Qed.
+
+(* every pair comes from a run string of the document that matches, and
+   every matching run string yields its pair *)
+Theorem get_links_sound : forall a l, get_links a = Ok l ->
+  exists runs ss, document_runs a default_opts = Ok runs
+    /\ iter_at_depth runs 5%nat = Ok (map RA ss)
+    /\ l = filter_map link_match ss
+    /\ forall pair, In pair l <-> exists r, In r ss /\ link_match r = Some pair.
+Proof.
+  intros a l H. unfold get_links in H.
+  apply bind_inv in H. destruct H as (runs & E1 & H).
+  apply bind_inv in H. destruct H as (items & E2 & H).
+  apply bind_inv in H. destruct H as (ss & E3 & H). injection H as <-.
+  apply mapM_leaf_str in E3. subst items.
+  exists runs, ss. repeat split; try assumption.
+  - intros Hin. apply filter_map_In in Hin. exact Hin.
+  - intros Hex. apply filter_map_In. exact Hex.
+Qed.
+
+(* in order: a split of the run strings is a split of the result *)
+Corollary get_links_order : forall a l ss1 r ss2,
+  get_links a = Ok l -> run_leaves a = Ok (ss1 ++ r :: ss2) ->
+  l = filter_map link_match ss1
+      ++ match link_match r with Some p => [p] | None => [] end
+      ++ filter_map link_match ss2.
+Proof.
+  intros a l ss1 r ss2 H E. apply get_links_complete in H. destruct H as (ss & E' & ->).
+  rewrite E in E'. injection E' as <-. rewrite filter_map_app. cbn [filter_map].
+  destruct (link_match r); reflexivity.
+Qed.
+
+(* a document without any `<` in its run strings has no links *)
+Corollary get_links_no_angle : forall a ss, run_leaves a = Ok ss ->
+  (forall r, In r ss -> ~ In 60 r) -> get_links a = Ok [].
+Proof.
+  intros a ss E H. rewrite get_links_unfold, E. cbn [bind]. f_equal.
+  apply filter_map_none. intros r Hin. apply link_match_no_angle. apply H. exact Hin.
+Qed.
+
+(* ---------- the run strings in terms of the paragraph records ---------- *)
+Section Items.
+  Context {A : Type}.
+
+  (* iter_at_depth without the addresses *)
+  Fixpoint items (k : nat) (t : rose A) : res (list (rose A)) :=
+    match t with
+    | RA _ => Err TypeError
+    | RL l =>
+        match k with
+        | O => Ok l
+        | S k' => xs <- mapM (items k') l ;; Ok (concat xs)
+        end
+    end.
+
+  Lemma map_snd_combine_seq : forall (l : list (rose A)) i,
+    map snd (map (fun ix : nat * rose A => ([fst ix], snd ix)) (combine (seq i (length l)) l)) = l.
+  Proof.
+    induction l as [|x l IH]; intros i; cbn [length seq combine map snd]; [reflexivity|].
+    f_equal. apply IH.
+  Qed.
+
+  Lemma enum_from_items (inner : rose A -> res (list (list nat * rose A)))
+        (f : rose A -> res (list (rose A))) :
+    (forall x, (r <- inner x ;; Ok (map snd r)) = f x) ->
+    forall l i, (r <- enum_from inner i l ;; Ok (map snd r))
+                = (xs <- mapM f l ;; Ok (concat xs)).
+  Proof.
+    intros Hf. induction l as [|x l IH]; intros i; cbn [enum_from mapM]; [reflexivity|].
+    rewrite <- (Hf x). destruct (inner x) as [ys|e]; cbn [bind]; [|reflexivity].
+    specialize (IH (S i)).
+    destruct (enum_from inner (S i) l) as [rest|e]; cbn [bind] in IH |- *;
+      destruct (mapM f l) as [xs|e']; cbn [bind] in IH |- *; try discriminate IH.
+    - injection IH as IH. rewrite map_app, map_map. cbn [snd concat]. rewrite IH. reflexivity.
+    - exact IH.
+  Qed.
+
+  Lemma enum_depth_items : forall k t,
+    (r <- enum_depth k t ;; Ok (map snd r)) = items k t.
+  Proof.
+    induction k as [|k IH]; intros [l|x]; cbn [enum_depth items bind]; try reflexivity.
+    - rewrite map_snd_combine_seq. reflexivity.
+    - apply enum_from_items. exact IH.
+  Qed.
+
+  Lemma iter_at_depth_items : forall k t, (k < 5)%nat -> iter_at_depth t (S k) = items k t.
+  Proof.
+    intros k t H. unfold iter_at_depth.
+    replace (enum_at_depth t (S k)) with (enum_depth k t); [apply enum_depth_items|].
+    do 5 (destruct k as [|k]; [reflexivity|]). exfalso. lia.
+  Qed.
+
+  Lemma concat_concat : forall (l : list (list (list (rose A)))),
+    concat (map (@concat _) l) = concat (concat l).
+  Proof.
+    induction l as [|x l IH]; cbn [map concat]; [reflexivity|].
+    rewrite concat_app, IH. reflexivity.
+  Qed.
+
+  Lemma mapM_concat {B} (f : rose A -> res B) : forall XS YS,
+    Forall2 (fun X Y => mapM f X = Ok Y) XS YS -> mapM f (concat XS) = Ok (concat YS).
+  Proof.
+    induction 1 as [|X Y XS YS HXY F IH]; cbn [concat]; [reflexivity|].
+    rewrite mapM_app, HXY, IH. reflexivity.
+  Qed.
+
+  Lemma items_0_as_rl : forall t, items 0 t = as_rl t.
+  Proof. intros [l|x]; reflexivity. Qed.
+
+  (* one level deeper = the children of the items one level above *)
+  Lemma items_succ : forall k t r, items (S k) t = Ok r ->
+    exists xs ys, items k t = Ok xs /\ mapM as_rl xs = Ok ys /\ r = concat ys.
+  Proof.
+    induction k as [|k IH]; intros [l|x] r H; try discriminate H.
+    - cbn [items] in H. apply bind_inv in H. destruct H as (ys & E & H). injection H as <-.
+      exists l, ys. split; [reflexivity|]. split; [|reflexivity].
+      apply mapM_Forall2. apply mapM_Forall2 in E.
+      induction E as [|x y l ys Hxy F IHF]; constructor; [|exact IHF].
+      rewrite <- items_0_as_rl. exact Hxy.
+    - change (items (S (S k)) (RL l)) with (xs <- mapM (items (S k)) l ;; Ok (concat xs)) in H.
+      apply bind_inv in H. destruct H as (rs & E & H). injection H as <-.
+      apply mapM_Forall2 in E.
+      assert (G : exists XS YS, Forall2 (fun x X => items k x = Ok X) l XS
+                                /\ Forall2 (fun X Y => mapM as_rl X = Ok Y) XS YS
+                                /\ rs = map (@concat _) YS).
+      { induction E as [|x rx l rs Hx F IHF].
+        - exists [], []. repeat split; constructor.
+        - destruct IHF as (XS & YS & F1 & F2 & ->).
+          destruct (IH x rx Hx) as (X & Y & EX & EY & ->).
+          exists (X :: XS), (Y :: YS). repeat split; constructor; assumption. }
+      destruct G as (XS & YS & F1 & F2 & ->).
+      exists (concat XS), (concat YS). split.
+      + change (items (S k) (RL l)) with (xs <- mapM (items k) l ;; Ok (concat xs)).
+        apply mapM_Forall2 in F1. rewrite F1. reflexivity.
+      + split; [apply mapM_concat; exact F2|apply concat_concat].
+  Qed.
+End Items.
+
+(* items commutes with a (k+1)-level map, from the result side *)
+Lemma items_lev {A B} (f : rose A -> res (rose B)) : forall k t t' ys,
+  lev k f t = Ok t' -> items k t' = Ok ys ->
+  exists xs, items k t = Ok xs /\ mapM f xs = Ok ys.
+Proof.
+  induction k as [|k IH]; intros t t' ys H E; cbn [lev] in H;
+    apply gps_level_inv in H; destruct H as (l & xs' & -> & -> & F).
+  - cbn [items] in E. injection E as <-. exists l. split; [reflexivity|].
+    apply mapM_Forall2. exact F.
+  - change (items (S k) (RL xs')) with (zs <- mapM (items k) xs' ;; Ok (concat zs)) in E.
+    apply bind_inv in E. destruct E as (YS & E & H). injection H as <-.
+    apply mapM_Forall2 in E.
+    assert (G : exists XS, Forall2 (fun x X => items k x = Ok X) l XS
+                           /\ Forall2 (fun X Y => mapM f X = Ok Y) XS YS).
+    { revert YS E. induction F as [|x y l xs' Hxy F IHF]; intros YS E.
+      - inversion E; subst. exists []. split; constructor.
+      - inversion E as [|? Y ? YS' HY E']; subst.
+        destruct (IHF YS' E') as (XS & F1 & F2).
+        destruct (IH x y Y Hxy HY) as (X & EX & EY).
+        exists (X :: XS). split; constructor; assumption. }
+    destruct G as (XS & F1 & F2). exists (concat XS). split.
+    + change (items (S k) (RL l)) with (zs <- mapM (items k) l ;; Ok (concat zs)).
+      apply mapM_Forall2 in F1. rewrite F1. reflexivity.
+    + apply mapM_concat. exact F2.
+Qed.
+
+Lemma mapM_gps_par : forall html xs ys, mapM (gps_par html) xs = Ok ys ->
+  exists ps rss, xs = map RA ps /\ mapM (par_run_strings html) ps = Ok rss
+                 /\ ys = map (fun ss => RL (map RA ss)) rss.
+Proof.
+  intros html. induction xs as [|x xs IH]; intros ys H; cbn [mapM] in H.
+  - injection H as <-. exists [], []. repeat split.
+  - apply bind_inv in H. destruct H as (y & Ey & H).
+    apply bind_inv in H. destruct H as (ys' & Eys & H). injection H as <-.
+    destruct (IH ys' Eys) as (ps & rss & -> & E & ->).
+    destruct x as [l|p]; [discriminate Ey|]. cbn [gps_par] in Ey.
+    apply bind_inv in Ey. destruct Ey as (ss & Ess & Ey). injection Ey as <-.
+    exists (p :: ps), (ss :: rss). repeat split.
+    cbn [mapM]. rewrite Ess, E. reflexivity.
+Qed.
+
+Lemma mapM_as_rl_leaves : forall (rss : list (list str)),
+  mapM as_rl (map (fun ss => RL (map RA ss)) rss) = Ok (map (map RA) rss).
+Proof.
+  induction rss as [|ss rss IH]; cbn [map mapM]; [reflexivity|].
+  cbn [as_rl bind]. rewrite IH. reflexivity.
+Qed.
+
+Lemma concat_map_RA : forall (rss : list (list str)),
+  concat (map (map (@RA str)) rss) = map RA (concat rss).
+Proof. intros rss. rewrite concat_map. reflexivity. Qed.
+
+(* the depth-5 leaves of a run view are the run strings of the depth-4 records *)
+Lemma gps_leaves : forall html pars runs its,
+  get_par_strings html pars = Ok runs -> iter_at_depth runs 5%nat = Ok its ->
+  exists ps rss, iter_at_depth pars 4%nat = Ok (map RA ps)
+                 /\ mapM (par_run_strings html) ps = Ok rss
+                 /\ its = map RA (concat rss).
+Proof.
+  intros html pars runs its Hg Hi.
+  rewrite (iter_at_depth_items 4) in Hi by lia.
+  apply items_succ in Hi. destruct Hi as (xs & ys & E3 & Erl & ->).
+  rewrite gps_is_lev in Hg.
+  destruct (items_lev (gps_par html) 3 pars runs xs Hg E3) as (ps0 & Ep & Em).
+  apply mapM_gps_par in Em. destruct Em as (ps & rss & -> & Ers & ->).
+  rewrite mapM_as_rl_leaves in Erl. injection Erl as <-.
+  exists ps, rss. rewrite (iter_at_depth_items 3) by lia.
+  split; [exact Ep|]. split; [exact Ers|apply concat_map_RA].
+Qed.
+
+Lemma doc_fold_runs_pars : forall a o tys accr r l,
+  doc_fold (runs_of a o) tys accr = Ok r ->
+  exists p, doc_fold (pars_of a o) tys (RL l) = Ok p.
+Proof.
+  intros a o. induction tys as [|ty tys IH]; intros accr r l H.
+  - cbn. eauto.
+  - unfold doc_fold in *. cbn [foldM] in *.
+    apply bind_inv in H. destruct H as (acc' & S1 & H).
+    apply bind_inv in S1. destruct S1 as (x & Ex & _).
+    unfold runs_of in Ex. apply bind_inv in Ex. destruct Ex as (p0 & Ep0 & _).
+    rewrite Ep0. cbn [bind]. destruct (pars_of_is_RL _ _ _ _ Ep0) as (l0 & ->).
+    cbn [app_rose bind]. exact (IH acc' r (l ++ l0) H).
+Qed.
+
+Lemma document_runs_pars : forall a o r, document_runs a o = Ok r ->
+  exists p, document_pars a o = Ok p.
+Proof.
+  intros a o r H. unfold document_runs, document_pars in *.
+  rewrite document_of_fold in *. exact (doc_fold_runs_pars a o _ _ r [] H).
+Qed.
+
+(* get_links in terms of the paragraph records of the document *)
+Theorem get_links_of_pars : forall a l, get_links a = Ok l ->
+  exists pars ps rss,
+    document_pars a default_opts = Ok pars
+    /\ iter_at_depth pars 4%nat = Ok (map RA ps)
+    /\ mapM (par_run_strings false) ps = Ok rss
+    /\ l = filter_map link_match (concat rss).
+Proof.
+  intros a l H. apply get_links_sound in H.
+  destruct H as (runs & ss & E1 & E2 & -> & _).
+  destruct (document_runs_pars _ _ _ E1) as (pars & Ep).
+  pose proof (document_runs_of_pars _ _ _ _ Ep E1) as Hg. cbn [default_opts o_html] in Hg.
+  destruct (gps_leaves _ _ _ _ Hg E2) as (ps & rss & Ei & Ers & Em).
+  exists pars, ps, rss. repeat split; try assumption.
+  f_equal. clear - Em. revert Em. generalize (concat rss). 
+  induction ss as [|s ss IH]; intros [|s' ss'] H; try discriminate H; [reflexivity|].
+  cbn [map] in H. injection H as -> H. f_equal. apply IH. exact H.
 Qed.
